@@ -83,6 +83,17 @@ fn hoist_target_part(
     span: &Span,
     ident_provider: &mut dyn IdentProvider,
 ) -> (Box<Expr>, Box<Expr>) {
+    // `o[a(), b()] += s`: a sequence used as a key keeps its own grouping when it is assigned
+    let parenthesised;
+    let expr = if expr.is_seq() {
+        parenthesised = Expr::Paren(ParenExpr {
+            span: expr.span(),
+            expr: Box::new(expr.clone()),
+        });
+        &parenthesised
+    } else {
+        expr
+    };
     let mut assignations = Vec::new();
     let ident = ident_provider.get_temporal_ident_used_in_assignation(
         expr,
